@@ -33,7 +33,7 @@ def one_byte_known(v):
 
 
 def obligations(tier, seed):
-    t = 400 if tier == 'quick' else 3000
+    t = 240 if tier == 'quick' else 3000
     n = 2 if tier == 'quick' else 3
     def top(i, n=4, hi=13):
         return ['b%d == %s' % (hi - j, bool((i >> j) & 1)) for j in range(n)]
